@@ -31,7 +31,7 @@ type Op struct {
 	Size    int      `json:"size"`
 	Topic   string   `json:"topic"`
 	Filters []string `json:"filters"`
-	Quit    string   `json:"quit"` // nil, open, closed
+	Quit    string   `json:"quit"` // nil, open, closed, later (closed by the explorer while the call is in progress)
 }
 
 // ProcSpec describes a harness goroutine using the client.
@@ -54,6 +54,11 @@ type Step struct {
 	Key     uint                `json:"key,omitempty"`
 	How     string              `json:"how,omitempty"`
 	Start   map[string]ProcSpec `json:"start,omitempty"`
+	In      *Inbound            `json:"in,omitempty"`    // inject: the broker publishes this message
+	Host    *Hostile            `json:"host,omitempty"`  // hostile: the broker sends these bytes
+	Next    string              `json:"next,omitempty"`  // the gate the specification has the process at after this step ("" = unknown)
+	X       map[string]any      `json:"x,omitempty"`     // the specification's projection of the client state after the step
+	NWarn   *int                `json:"nwarn,omitempty"` // adopt: the number of warnings the specification's AdoptSession gives
 	Note    string              `json:"note,omitempty"`
 }
 
@@ -73,14 +78,18 @@ type Config struct {
 
 // Behaviour is the unit of replay.
 type Behaviour struct {
-	ID       string              `json:"id"`
-	Cfg      Config              `json:"cfg"`
-	Procs    map[string]ProcSpec `json:"procs"`
-	Steps    []Step              `json:"steps"`
-	Random   *Random             `json:"random,omitempty"`
-	Frame    *Frame              `json:"frame,omitempty"`
-	Epilogue string              `json:"epilogue"` // drain, close, none
-	Slow     int                 `json:"slow"`     // multiplier for the time limits (confirmation runs)
+	ID    string              `json:"id"`
+	Cfg   Config              `json:"cfg"`
+	Procs map[string]ProcSpec `json:"procs"`
+	Steps []Step              `json:"steps"`
+	// Auto, Mute, ListSeed: a recorded run of the explorer replayed step by step (the broker reacts on its own)
+	Auto     bool     `json:"auto,omitempty"`
+	Mute     []string `json:"mute,omitempty"`
+	ListSeed int64    `json:"listseed,omitempty"`
+	Random   *Random  `json:"random,omitempty"`
+	Frame    *Frame   `json:"frame,omitempty"`
+	Epilogue string   `json:"epilogue"` // drain, close, none
+	Slow     int      `json:"slow"`     // multiplier for the time limits (confirmation runs)
 }
 
 // Random asks for a seeded random schedule instead of scripted steps (exploration).
@@ -107,6 +116,8 @@ type Random struct {
 	// Burst: the named process stays parked until step At, then runs alone until it blocks or ends
 	// (Close / Disconnect issued at a chosen gate of the others and completed without interference).
 	Burst *Burst `json:"burst,omitempty"`
+	// PQuit: probability per step that a quit channel of mode "later" gets closed while its call is in progress
+	PQuit float64 `json:"pquit"`
 	// Damage lists store damages applied between a stop and the following adopt.
 	Damage []Step `json:"damage"`
 }
@@ -142,22 +153,25 @@ type exch struct {
 
 // Exec is one execution.
 type Exec struct {
-	B         *Behaviour
-	W         *sim.World
-	Store     *simstore.Store
-	Client    *mqtt.Client
-	gen       int
-	mu        sync.Mutex
-	exchs     []*exch
-	diverged  string
-	lastSig   string
-	limit     time.Duration
-	gated     atomic.Bool
-	finishing bool
-	ndamage   int
-	lastAt    map[string]string // gate each process was released from last
-	deadConns map[int]bool      // connections of stopped incarnations
-	baseline  map[string]bool   // goroutines (by id) left behind by earlier executions in this process
+	B                    *Behaviour
+	W                    *sim.World
+	Store                *simstore.Store
+	Client               *mqtt.Client
+	gen                  int
+	mismatches, lastWarn int
+	raced                bool
+	quits                map[string]chan struct{} // open quit channels of mode "later", by process
+	mu                   sync.Mutex
+	exchs                []*exch
+	diverged             string
+	lastSig              string
+	limit                time.Duration
+	gated                atomic.Bool
+	finishing            bool
+	ndamage              int
+	lastAt               map[string]string // gate each process was released from last
+	deadConns            map[int]bool      // connections of stopped incarnations
+	baseline             map[string]bool   // goroutines (by id) left behind by earlier executions in this process
 }
 
 func goroutineID(stack string) string {
@@ -317,8 +331,12 @@ func Run(b *Behaviour) (events []sim.Ev) {
 		return nil
 	}
 	x.Store.OnOp = x.storeEvent
-	if b.Random != nil {
-		lrng := rand.New(rand.NewSource(b.Random.Seed + 17))
+	if b.Random != nil || b.ListSeed != 0 {
+		seed := b.ListSeed
+		if b.Random != nil {
+			seed = b.Random.Seed + 17
+		}
+		lrng := rand.New(rand.NewSource(seed))
 		x.Store.ListOrder = func(keys []uint) {
 			lrng.Shuffle(len(keys), func(i, j int) { keys[i], keys[j] = keys[j], keys[i] })
 		}
@@ -377,6 +395,12 @@ func Run(b *Behaviour) (events []sim.Ev) {
 		}
 	}
 	x.startProcs(b.Procs)
+	if b.Auto {
+		x.W.AutoBroker = true
+		for _, t := range b.Mute {
+			x.W.Broker.Mute[t] = true
+		}
+	}
 	for i := range b.Steps {
 		if !x.step(i, &b.Steps[i]) {
 			break
@@ -384,6 +408,9 @@ func Run(b *Behaviour) (events []sim.Ev) {
 	}
 	if b.Random != nil {
 		x.randomRun(b.Random)
+	}
+	for _, t := range b.Mute {
+		delete(x.W.Broker.Mute, t)
 	}
 	x.epilogue()
 	return
@@ -480,8 +507,17 @@ func fnv(b []byte) uint32 {
 	return h
 }
 
-func quitChan(s string) <-chan struct{} {
+func (x *Exec) quitChan(name, s string) <-chan struct{} {
 	switch s {
+	case "later":
+		ch := make(chan struct{})
+		x.mu.Lock()
+		if x.quits == nil {
+			x.quits = map[string]chan struct{}{}
+		}
+		x.quits[name] = ch
+		x.mu.Unlock()
+		return ch
 	case "open":
 		return make(chan struct{})
 	case "closed":
@@ -513,9 +549,9 @@ func (x *Exec) script(name string, c *mqtt.Client, gen int, spec ProcSpec) {
 		level := 0
 		switch op.M {
 		case "Publish":
-			err = c.Publish(quitChan(op.Quit), payload, topic)
+			err = c.Publish(x.quitChan(name, op.Quit), payload, topic)
 		case "PublishRetained":
-			err = c.PublishRetained(quitChan(op.Quit), payload, topic)
+			err = c.PublishRetained(x.quitChan(name, op.Quit), payload, topic)
 		case "PublishAtLeastOnce":
 			ch, err = c.PublishAtLeastOnce(payload, topic)
 			level = 1
@@ -529,22 +565,25 @@ func (x *Exec) script(name string, c *mqtt.Client, gen int, spec ProcSpec) {
 			ch, err = c.PublishExactlyOnceRetained(payload, topic)
 			level = 2
 		case "Subscribe":
-			err = c.Subscribe(quitChan(op.Quit), op.Filters...)
+			err = c.Subscribe(x.quitChan(name, op.Quit), op.Filters...)
 		case "SubscribeLimitAtMostOnce":
-			err = c.SubscribeLimitAtMostOnce(quitChan(op.Quit), op.Filters...)
+			err = c.SubscribeLimitAtMostOnce(x.quitChan(name, op.Quit), op.Filters...)
 		case "SubscribeLimitAtLeastOnce":
-			err = c.SubscribeLimitAtLeastOnce(quitChan(op.Quit), op.Filters...)
+			err = c.SubscribeLimitAtLeastOnce(x.quitChan(name, op.Quit), op.Filters...)
 		case "Unsubscribe":
-			err = c.Unsubscribe(quitChan(op.Quit), op.Filters...)
+			err = c.Unsubscribe(x.quitChan(name, op.Quit), op.Filters...)
 		case "Ping":
-			err = c.Ping(quitChan(op.Quit))
+			err = c.Ping(x.quitChan(name, op.Quit))
 		case "Close":
 			err = c.Close()
 		case "Disconnect":
-			err = c.Disconnect(quitChan(op.Quit))
+			err = c.Disconnect(x.quitChan(name, op.Quit))
 		default:
 			err = fmt.Errorf("harness: unknown method %q", op.M)
 		}
+		x.mu.Lock()
+		delete(x.quits, name)
+		x.mu.Unlock()
 		e := sim.Ev{"e": "ret", "p": name, "m": op.M, "gen": gen, "tag": op.Tag, "err": ErrClass(err), "msg": errMsg(err), "level": level}
 		var se mqtt.SubscribeError
 		if errors.As(err, &se) {
@@ -663,6 +702,9 @@ func (x *Exec) snapshot() {
 
 func (x *Exec) diverge(i int, why string) bool {
 	if x.diverged == "" {
+		if x.raced && !strings.HasPrefix(why, "select-race") {
+			why = "select-race (at an earlier lw.wait): " + why
+		}
 		x.diverged = why
 		x.emit(sim.Ev{"e": "diverge", "step": i + 1, "why": why})
 	}
@@ -707,15 +749,100 @@ func (x *Exec) step(i int, st *Step) bool {
 	if g.Site == "lw.wait" {
 		wait = 200 * time.Millisecond
 	}
-	x.W.S.WaitParked(st.P, wait)
+	ng, ended := x.W.S.WaitParked(st.P, wait)
 	x.pollExchanges()
 	x.sampleSignals()
+	if g.Site == "lw.wait" && st.Next != "" && ((ng != nil && ng.Site != st.Next) || ended) {
+		// lockWrite's select had two ready cases (context cancelled and ticker): Go chose the other one
+		return x.diverge(i, "select-race: "+fmt.Sprintf("process %s left lw.wait for another gate than %q", st.P, st.Next))
+	}
+	if st.X != nil && (ng != nil || ended) {
+		x.compare(i, st.X, g.Site)
+	}
 	return true
 }
 
+// compare checks the projection of the real client against the one of the specification (model -> code conformance
+// in state, not only in control).  A difference is recorded; it is a deviation of the model, not a verdict.
+func (x *Exec) compare(i int, want map[string]any, site string) {
+	if x.Client == nil || x.mismatches >= 3 {
+		return
+	}
+	s := x.Client.VerifSnapshot()
+	got := map[string]any{"acked": int(s.Acked), "received": int(s.Received), "completed": int(s.Completed),
+		"accept1": s.AcceptN[0], "accept2": s.AcceptN[1], "submit1": s.SubmitN[0], "submit2": s.SubmitN[1],
+		"q1": s.QueueLen[0], "q2": s.QueueLen[1], "pack": len(s.PendingAck) > 0, "wsem": s.WriteSem, "csem": s.ConnSem,
+		"ping": s.PingSlot, "utx": s.UnorderedPending, "online": s.Online, "offline": s.Offline}
+	for f, w := range want {
+		g, ok := got[f]
+		if !ok {
+			continue
+		}
+		if wf, isf := w.(float64); isf {
+			gi, _ := g.(int)
+			// a sequence semaphore is taken by a helper goroutine the moment it is free: not comparable then
+			if (strings.HasPrefix(f, "accept") || strings.HasPrefix(f, "submit")) && (wf < 0 || gi < 0) {
+				continue
+			}
+			if int(wf) == gi {
+				continue
+			}
+		} else if w == g {
+			continue
+		}
+		x.mismatches++
+		if site == "lw.wait" {
+			// lockWrite's select had two ready cases (context cancelled and ticker): Go chose the other one
+			x.mismatches = 99
+			x.raced = true
+			x.emit(sim.Ev{"e": "mismatch", "step": i + 1, "field": f, "want": w, "got": g, "race": "select-race"})
+			return
+		}
+		x.emit(sim.Ev{"e": "mismatch", "step": i + 1, "field": f, "want": w, "got": g})
+	}
+}
+
 func (x *Exec) envStep(i int, st *Step) bool {
-	x.emit(sim.Ev{"e": "step", "i": i + 1, "env": st.Env, "c": st.C})
+	ev := sim.Ev{"e": "step", "i": i + 1, "env": st.Env, "c": st.C}
 	switch st.Env {
+	case "damage":
+		ev["key"], ev["how"] = int(st.Key), st.How
+	case "adopt", "start":
+		ev["start"] = st.Start
+	case "inject":
+		ev["in"] = st.In
+	case "hostile":
+		ev["host"] = st.Host
+	case "quit":
+		ev["p"] = st.P
+	}
+	x.emit(ev)
+	switch st.Env {
+	case "inject":
+		c := x.W.Conn(st.C)
+		if c == nil || st.In == nil {
+			return x.diverge(i, "inject: no such connection")
+		}
+		x.W.Broker.Publish(c, st.In.QoS, "in/t", codec.Payload(st.In.Tag, st.In.Size), false)
+	case "hostile":
+		c := x.W.Conn(st.C)
+		if c == nil || st.Host == nil {
+			return x.diverge(i, "hostile: no such connection")
+		}
+		raw, _ := hex.DecodeString(st.Host.Hex)
+		// judged as a violation only when it starts at a packet boundary of the stream
+		x.W.Rec.Emit(sim.Ev{"e": "bsraw", "c": c.ID(), "n": len(raw), "note": st.Host.Note, "violation": st.Host.Violation && c.Aligned()})
+		c.Inject(raw)
+	case "quit":
+		x.mu.Lock()
+		ch := x.quits[st.P]
+		delete(x.quits, st.P)
+		x.mu.Unlock()
+		if ch == nil {
+			return x.diverge(i, "quit: process "+st.P+" has no open quit channel")
+		}
+		close(ch)
+		x.W.S.WaitParked(st.P, 30*time.Millisecond)
 	case "bsend":
 		c := x.W.Conn(st.C)
 		if c == nil || st.Pkt == nil {
@@ -756,6 +883,12 @@ func (x *Exec) envStep(i int, st *Step) bool {
 		}
 	case "adopt":
 		x.adopt()
+		if st.NWarn != nil && *st.NWarn != x.lastWarn {
+			x.emit(sim.Ev{"e": "mismatch", "step": i + 1, "field": "nwarn", "want": *st.NWarn, "got": x.lastWarn})
+		}
+		if st.X != nil {
+			x.compare(i, st.X, "adopt")
+		}
 		if st.Start != nil && x.Client != nil {
 			x.startProcs(st.Start)
 		}
@@ -817,6 +950,7 @@ func (x *Exec) adopt() {
 	}
 	e := sim.Ev{"e": "adopt", "gen": x.gen, "warn": ws, "nwarn": len(warn), "fatal": fatal != nil, "msg": errMsg(fatal), "keys": x.keys()}
 	x.Client = client
+	x.lastWarn = len(warn)
 	if fatal != nil {
 		x.Client = nil
 	}
@@ -1105,8 +1239,7 @@ func (x *Exec) randomRun(r *Random) {
 			if c := x.W.Conn(len(x.W.Conns())); c != nil && !c.IsClosed() && c.Established() && !(inbound[0].After && x.W.Broker.OutPending() != 0) {
 				in := inbound[0]
 				inbound = inbound[1:]
-				x.emit(sim.Ev{"e": "step", "i": n + 1, "env": "inject", "c": c.ID()})
-				x.W.Broker.Publish(c, in.QoS, "in/t", codec.Payload(in.Tag, in.Size), false)
+				x.envStep(n, &Step{Env: "inject", C: c.ID(), In: &in})
 				continue
 			}
 		}
@@ -1114,11 +1247,25 @@ func (x *Exec) randomRun(r *Random) {
 			if c := x.W.Conn(len(x.W.Conns())); c != nil && !c.IsClosed() && c.Established() {
 				h := hostile[0]
 				hostile = hostile[1:]
-				raw, _ := hex.DecodeString(h.Hex)
-				x.emit(sim.Ev{"e": "step", "i": n + 1, "env": "hostile", "c": c.ID()})
-				// judged as a violation only when it starts at a packet boundary of the stream
-				x.W.Rec.Emit(sim.Ev{"e": "bsraw", "c": c.ID(), "n": len(raw), "note": h.Note, "violation": h.Violation && c.Aligned()})
-				c.Inject(raw)
+				x.envStep(n, &Step{Env: "hostile", C: c.ID(), Host: &h})
+				continue
+			}
+		}
+		if r.PQuit > 0 && rng.Float64() < r.PQuit {
+			x.mu.Lock()
+			var qs []string
+			for q := range x.quits {
+				qs = append(qs, q)
+			}
+			sort.Strings(qs)
+			who := ""
+			if len(qs) > 0 {
+				who = qs[rng.Intn(len(qs))]
+			}
+			x.mu.Unlock()
+			if who != "" {
+				x.envStep(n, &Step{Env: "quit", P: who})
+				last = who
 				continue
 			}
 		}
